@@ -270,9 +270,10 @@ def _ewreg_shard(cases):
     bad = []
     n = 0
     for (sub, dt, s1, s2, so) in cases:
-        for acc in ("ethos-u55-128",):
+        # reversed operand order: the hardware's operand A is then IFM2, so the operand that is rescaled has to be chosen the other way round
+        for acc, rev in (("ethos-u55-128", False), ("ethos-u55-128", True)):
             ae = oplists.acc_enum(api, acc)
-            spec = oplists.ew_spec(sub, 0x0000, 0x4000, 0x8000, hw=(8, 8), c=16, dt=dt)
+            spec = oplists.ew_spec(sub, 0x0000, 0x4000, 0x8000, hw=(8, 8), c=16, dt=dt, reversed_=rev)
             spec["ifm"]["scale"], spec["ifm2"]["scale"], spec["ofm"]["scale"] = s1, s2, so
             if dt == "u8":
                 for k in ("ifm", "ifm2", "ofm"):
@@ -301,11 +302,13 @@ def _ewreg_shard(cases):
                 A, B = Fr(opa, 1 << opa_sh) * o, unscaled * o
             else:
                 A, B = unscaled * o, Fr(opa, 1 << opa_sh) * o
+            if rev:
+                A, B = B, A
             f1, f2, fo = (Fr(float(np.float32(v))) for v in (s1, s2, so))
             for name, got, exp in (("first", A, f1 / fo), ("second", B, f2 / fo)):
                 rel = abs(got - exp) / exp
                 if rel > Fr(1, 1 << 24):
-                    bad.append(((sub, dt, s1, s2, so), "%s operand is weighted %.10g, the scales give %.10g (relative error 2^%.1f; OPA=%d>>%d OPB=%d OFM=%d>>%d operand-to-scale=%d)" % (
+                    bad.append(((sub + (".reversed" if rev else ""), dt, s1, s2, so), "%s operand is weighted %.10g, the scales give %.10g (relative error 2^%.1f; OPA=%d>>%d OPB=%d OFM=%d>>%d operand-to-scale=%d)" % (
                         name, float(got), float(exp), math.log2(float(rel)), opa, opa_sh, opb, ofm, ofm_sh, mode)))
                     break
     return n, bad
